@@ -122,7 +122,7 @@ EXTRA = {
  "C04": "; interval DOMAIN-GUARD, POSE-DIV (divisors of the singularity-free estimator), scale-invariant QUEST inputs, structural discovery of Newton updates, dcm2quat direction on every decision path; AM2Q.dcm scale-invariance obligation and SCALE-GATE (tolerance tests on quantities carrying the free magnitude symbols); QUEST.start, TRIAD.quat",
  "C05": "; interval SHORT-ARC rule for AQUA's delta quaternions; GAIN-INPUT must-fact rule; interpretation-based gradient step; AM-TILT identities of the accelerometer angles; REF-UNIT (value number of the EKF's magnetic reference at every exit)",
  "C06": "; PROTOCOL.rows / PROTOCOL.state (every output row comes from the streaming method; the batch routine initialises no streamed state); option-forwarding clause of PROTOCOL; MODULE-STATE lint (module-level RNG objects, argument-dependent global caches); ROWWISE.route shared with C07",
- "C07": "; ROWWISE structural rule, TWIN.from_DCM on the four pivot arms (sample-selected paths), TWIN.band (both arms gate their limit shortcuts on the same angle band), NO-SIGN-ZERO for metrics, DOMAIN-GUARD; ROWWISE.route (pinned per-row estimate() call sites; un-twinned vectorised arms get no verdict); tolerance tests compared between the scalar and array to_angles",
+ "C07": "; ROWWISE structural rule, TWIN.from_DCM on the four pivot arms (sample-selected paths), TWIN.band (both arms gate their limit shortcuts on the same angle band), NO-SIGN-ZERO for metrics, DOMAIN-GUARD; ROWWISE.route (pinned per-row estimate() call sites; un-twinned vectorised arms get no verdict); tolerance tests compared between the scalar and array to_angles; TWIN.nan (same NaN-aware reduction in every arm of rmse)",
  "C08": "; PROTOCOL option forwarding for the batch integrator; ANGVEL.gate (no tolerance gate between consecutive samples); PROTOCOL for every filter whose dead-reckoning / prediction step the property names",
  "C09": "; q_conj row-wise twin; scalar-last matrix rule shared with C01",
  "C10": "; LOG.arm agreement of every inequality-guarded arm of DCM.log with the generic closed form; RPY.gate pole bands; path enumeration of DCM.to_axisangle; LOG.sample (closed form of the decision path of 36 sample rotations)",
